@@ -34,6 +34,7 @@ type xenv struct {
 	alter    bool   // flip a bit of the packed message after signing
 	macCut   int    // >= 0 with alter: also cut the MAC down to that many octets (a forged envelope with a short MAC)
 	cutAt    int    // >0: close the connection after this many octets of this message
+	opt      bool   // the envelope carries an additional section (an OPT record, as servers answering an EDNS0 query send)
 	raw      []byte // pre-packed octets (filled by the sender)
 }
 
@@ -105,14 +106,7 @@ func runTransfer(qtype uint16, qid uint16, qser uint32, envs []xenv, tsig bool) 
 		var frames [][]byte
 		var cuts []int
 		for _, e := range envs {
-			m := new(dns.Msg)
-			m.Id = e.id
-			m.Response = true
-			m.Rcode = e.rcode
-			m.Question = q.Question
-			for _, x := range e.recs {
-				m.Answer = append(m.Answer, x.rr())
-			}
+			m := envMsg(e, q)
 			var out []byte
 			if tsig && !e.unsigned {
 				m.SetTsig(xfrKeyName, dns.HmacSHA256, 300, now)
@@ -200,6 +194,25 @@ loop:
 }
 
 // compositions of n into ordered positive parts
+// envMsg: the message of one envelope as the scripted sender builds it
+func envMsg(e xenv, q *dns.Msg) *dns.Msg {
+	m := new(dns.Msg)
+	m.Id = e.id
+	m.Response = true
+	m.Rcode = e.rcode
+	m.Question = q.Question
+	for _, x := range e.recs {
+		m.Answer = append(m.Answer, x.rr())
+	}
+	if e.opt {
+		o := &dns.OPT{Hdr: dns.RR_Header{Name: ".", Rrtype: dns.TypeOPT}}
+		o.SetUDPSize(1232)
+		o.Option = append(o.Option, &dns.EDNS0_NSID{Code: dns.EDNS0NSID, Nsid: "6e73"})
+		m.Extra = append(m.Extra, o)
+	}
+	return m
+}
+
 func compositions(n int) [][]int {
 	if n == 0 {
 		return [][]int{{}}
@@ -338,6 +351,34 @@ func runC15(c *Ctx) {
 			envs = append(envs[:j], append([]xenv{envs[j]}, envs[j:]...)...)
 		}
 		c15Run(c, "faults", qtype, 80, 3, envs, false, nil)
+	}
+	// 3b. the connection closed at every octet of every envelope of a small transfer whose messages carry an additional
+	//     section: wherever the stream ends early the transfer must report it (a message cut on a record boundary still
+	//     decodes, so only the short read gives it away)
+	{
+		stream := []xrec{{soa: true, serial: 9}, {n: 1}, {n: 2}, {soa: true, serial: 9}}
+		q := new(dns.Msg)
+		q.SetAxfr("example.org.")
+		for ci, parts := range compositions(len(stream)) {
+			if c.Tier != "thorough" && ci%3 != 0 {
+				continue
+			}
+			base := splitStream(stream, parts, 80)
+			for j := range base {
+				base[j].opt = true
+			}
+			for j := range base {
+				b, err := envMsg(base[j], q).Pack()
+				if err != nil {
+					continue
+				}
+				for cut := 1; cut < len(b)+2; cut++ {
+					envs := append([]xenv{}, base...)
+					envs[j].cutAt = cut
+					c15Run(c, "cut-every-octet", dns.TypeAXFR, 80, 3, envs, false, nil)
+				}
+			}
+		}
 	}
 	// 4. TSIG: every envelope must verify against the running MAC chain
 	nt := c.Scale(120, 2500)
